@@ -235,6 +235,21 @@ fn check(run: &mut Run, s: &str, g: bool) {
     }
 }
 
+/// every character with the Unicode White_Space property (checked against `char::is_whitespace` at start)
+const WHITE_SPACE: [char; 25] = [
+    '\u{9}', '\u{A}', '\u{B}', '\u{C}', '\u{D}', '\u{20}', '\u{85}', '\u{A0}', '\u{1680}', '\u{2000}', '\u{2001}', '\u{2002}', '\u{2003}', '\u{2004}', '\u{2005}', '\u{2006}', '\u{2007}', '\u{2008}',
+    '\u{2009}', '\u{200A}', '\u{2028}', '\u{2029}', '\u{202F}', '\u{205F}', '\u{3000}',
+];
+
+/// Phase 2: patterns over {a, ä, X, Y}; X and Y are instantiated with every (ordered pair of) White_Space
+/// character(s), so every White_Space character occurs in every position next to ASCII and
+/// non-ASCII neighbours, alone and together with every other one.
+const PATTERN_ALPHA: [&str; 4] = ["a", "ä", "X", "Y"];
+
+fn instantiate(pattern: &str, x: char, y: char) -> String {
+    pattern.chars().map(|c| if c == 'X' { x } else if c == 'Y' { y } else { c }).collect()
+}
+
 fn main() {
     let mut run = Run::from_env("C11");
     if let Some(c) = run.replay_case() {
@@ -244,7 +259,12 @@ fn main() {
     let max_len = run.pick(5, 6);
     let total = total_strings(max_len);
     let units = total.div_ceil(BLOCK);
+    let patterns: Vec<String> = tu_verif::enumerate::strings(&PATTERN_ALPHA, run.pick(4, 5)).into_iter().filter(|p| p.contains('X') || p.contains('Y')).collect();
     if let Some(n) = run.describe_unit() {
+        if n >= units && ((n - units) as usize) < patterns.len() {
+            println!("{}", json!({"pattern": patterns[(n - units) as usize], "X_and_Y": "every ordered pair of the 25 White_Space characters", "use_graphemes": [false, true]}));
+            return;
+        }
         if n < units {
             let (lo, hi) = (n * BLOCK, ((n + 1) * BLOCK).min(total) - 1);
             println!("{}", json!({"strings": format!("shortlex indices {lo}..={hi} over {ALPHA:?}"), "first": nth_string(lo), "last": nth_string(hi), "use_graphemes": [false, true]}));
@@ -264,6 +284,36 @@ fn main() {
     );
     run.assumptions.push("unicode-segmentation (the same crate version the subject links) decides grapheme clusters in the references and the domain predicate".into());
     run.assumptions.push("char::is_whitespace / str::split_whitespace implement the Unicode White_Space property the statement names".into());
+    for c in 0..=0x10FFFFu32 {
+        if let Some(ch) = char::from_u32(c) {
+            assert_eq!(ch.is_whitespace(), WHITE_SPACE.contains(&ch), "White_Space table out of date for U+{c:X}");
+        }
+    }
+    run.bounds.insert("white_space_phase".into(), json!(format!("{} patterns over {PATTERN_ALPHA:?} with at least one placeholder, X and Y instantiated with every ordered pair of the 25 White_Space characters", patterns.len())));
+    for (j, pat) in patterns.iter().enumerate() {
+        if !run.unit(units + j as u64) {
+            continue;
+        }
+        if run.out_of_time() {
+            break;
+        }
+        let has_y = pat.contains('Y');
+        let has_x = pat.contains('X');
+        for &x in &WHITE_SPACE {
+            for &y in &WHITE_SPACE {
+                let s = instantiate(pat, x, y);
+                for g in [false, true] {
+                    check(&mut run, &s, g);
+                }
+                if !has_y {
+                    break;
+                }
+            }
+            if !has_x {
+                break;
+            }
+        }
+    }
     for u in 0..units {
         if !run.unit(u) {
             continue;
